@@ -220,10 +220,12 @@ def same(a, b):
     """equal shape and equal values; dyadic data compare exactly, the weight-defined group introduces w/MW fractions whose sums may be
     associated differently by the library and by NumPy: 1e-12 relative slack (DESIGN 1.5), no absolute slack"""
     a = arr(a); b = np.asarray(b, float)
-    return a.shape == b.shape and bool(np.allclose(a, b, rtol=1e-12, atol=0.0))
+    return same_data(a, b)
 
 def same_data(a, b):
-    return a.shape == b.shape and bool(np.allclose(a, b, rtol=1e-12, atol=0.0))
+    if a.shape != b.shape: return False
+    if (a == b).all(): return True                     # the common (dyadic) case, cheap
+    return bool(np.allclose(a, b, rtol=1e-12, atol=0.0))
 
 DOCUMENTED = ('UndefinedChemicalAlias', 'UndefinedPhase')
 
@@ -257,7 +259,10 @@ class C10(System):
         fixtures.tmo()
 
     def depth(self, tier): return self._dq if tier == 'quick' else self._dt
-    def time_cap(self, tier): return self._tq if tier == 'quick' else self._tt
+    def time_cap(self, tier):
+        import os
+        if os.environ.get('VERIF_C10_CAP'): return float(os.environ['VERIF_C10_CAP'])      # development aid: measure without the caps
+        return self._tq if tier == 'quick' else self._tt
     def reset_globals(self):
         fixtures.reset_globals()
 
@@ -278,7 +283,7 @@ class C10(System):
         else:
             cfgs = [(2, ('g', 'l'), 'mol'), (5, ('g', 'l'), 'mol')]
             if tier != 'quick': cfgs += [(1, ('l', 's'), 'mol'), (8, ('g', 'l'), 'mol')]
-        if self.one_config: cfgs = cfgs[:1]
+        if self.one_config: cfgs = cfgs[:1] if tier == 'quick' else cfgs[:2]      # thorough: 3 chemicals (g,l) and 4 chemicals (L,l,s)
         k = seed % len(cfgs)
         return cfgs[k:] + cfgs[:k]
 
@@ -805,7 +810,9 @@ class C10(System):
         for p in range(m.N):
             names += [m.IDs[p], m.CAS[p], m.aliases[p][0]]
         names = names[:9]
-        out = []
+        memo = self.__dict__.setdefault('_fk', {})
+        if (tuple(names), n) in memo: return memo[tuple(names), n]
+        out = memo[tuple(names), n] = []
         L_ = 2 if len(names) > 3 else 3
         while len(out) < n:
             for combo in itertools.product(names, repeat=L_):
@@ -838,9 +845,9 @@ class C10(System):
                 raise Violation(clause, f'look-up number {j + 1} of a flood of {n} distinct valid keys on {tgt} raised {en}: {e} '
                                         f'(cache sizes: chemicals {len(c1)}, per-(phases, chemicals) {len(c2)}); key {key!r}',
                                 match=dict(op='flood', target=tgt, exc=en, emsg=str(e)[:32]), detail=dict(n=j + 1, len_chem_cache=len(c1), len_material_cache=len(c2)))
-            exp = np.array([vec[m.names[x]] for x in combo], float)
-            if not same(got, exp):
-                raise Violation('get-value', f'look-up number {j + 1} of a flood on {tgt}: {key!r} returned {arr(got).tolist()!r}, data hold {exp.tolist()!r}',
+            exp = [vec[m.names[x]] for x in combo]
+            if got.tolist() != exp and not same(got, np.array(exp, float)):       # plain reads of stored entries: normally exactly equal
+                raise Violation('get-value', f'look-up number {j + 1} of a flood on {tgt}: {key!r} returned {arr(got).tolist()!r}, data hold {exp!r}',
                                 match=dict(op='flood', target=tgt, form='tuple'))
             maxlen1 = max(maxlen1, len(c1)); maxlen2 = max(maxlen2, len(c2))
         info['evicted'] = bool(before1) and before1[0] not in c1 or maxlen2 > len(c2)
@@ -961,8 +968,8 @@ class C10(System):
 
 SYSTEMS = [
     C10('c10.keys', 'keys', 1, 1),
-    C10('c10.history', 'history', 3, 3, tcap_q=60, tcap_t=200),
-    C10('c10.history4', 'history', 2, 4, tcap_q=20, tcap_t=500, one_config=True),
-    C10('c10.wide', 'wide', 2, 3, tcap_q=30, tcap_t=250),
-    C10('c10.evict', 'evict', 2, 3, tcap_q=40, tcap_t=150),
+    C10('c10.history', 'history', 3, 3, tcap_q=60, tcap_t=120),
+    C10('c10.history4', 'history', 2, 4, tcap_q=20, tcap_t=520, one_config=True),
+    C10('c10.wide', 'wide', 2, 3, tcap_q=30, tcap_t=300),
+    C10('c10.evict', 'evict', 2, 3, tcap_q=40, tcap_t=260),
 ]
